@@ -405,7 +405,12 @@ class MM:
             if n in self.aliases and n not in ANY_ALIASES:
                 return self.nf_match(u, j, self.aliases[n]["type"])
             if n in self.structures:
-                return self.nf_match_obj(u, j, self.flatten(n), ())
+                props = self.flatten(n)
+                if not props:
+                    # a named structure without declared properties: whatever j carries is undeclared data
+                    # (C15: ignored); the generated class cannot hold it - both outputs are normal forms
+                    return isinstance(u, dict) and isinstance(j, dict) and (u == {} or json_eq(u, j))
+                return self.nf_match_obj(u, j, props, ())
             if n in self.envelopes():
                 e = self.envelopes()[n]
                 return self.nf_match_obj(u, j, e["properties"], e["always"])
